@@ -287,3 +287,54 @@ func c04GlobWildcardPretest(p *Prog) *RuleResult {
 	r.Floor(1)
 	return r
 }
+
+// ---------------------------------------------------------------------------------------------
+// C14/R10 implied-features-follow-effective-set.
+//
+// Some features cannot exist without another (top-level await, for-await and async generators
+// without async functions; private fields without fields; …). fixInvalidUnsupportedJSFeatureOverrides
+// closes the unsupported set under these implications. It has to do so for the *effective* set — the
+// implying feature may be unsupported because of the target while an implied one was switched back on
+// with `supported:{…:true}`; the lowering of the implying feature then produces constructs (a bare
+// `yield` at module level) that are valid nowhere. Rule: the condition under which the implied
+// features are added reads the effective set options.UnsupportedJSFeatures, not only the overrides.
+func c14ImpliedFollowEffective(p *Prog) *RuleResult {
+	r := NewRule("C14/R10 implied-features-follow-effective-set", "implied feature bits are added whenever the implying feature is unsupported in the effective set (target or override), not only when an override disables it")
+	fn := p.FindFunc("bundler.fixInvalidUnsupportedJSFeatureOverrides")
+	if !r.Anchor("bundler.fixInvalidUnsupportedJSFeatureOverrides", fn != nil) {
+		return r
+	}
+	n := 0
+	eachInstr(fn, func(b *ssa.BasicBlock, in ssa.Instruction) {
+		st, ok := in.(*ssa.Store)
+		if !ok {
+			return
+		}
+		fa, ok := st.Addr.(*ssa.FieldAddr)
+		if !ok || fieldAddrName(fa) != "UnsupportedJSFeatures" {
+			return
+		}
+		n++
+		r.Instances++
+		key := "fixInvalidUnsupportedJSFeatureOverrides: the implication is applied to the effective set"
+		readsEffective := false
+		for _, ifi := range controlDepIfsTransitive(b) {
+			sliceCond(ifi.Cond, func(v ssa.Value) bool {
+				if f, ok := v.(*ssa.FieldAddr); ok && fieldAddrName(f) == "UnsupportedJSFeatures" {
+					readsEffective = true
+				}
+				return true
+			})
+		}
+		if readsEffective {
+			r.OK(key, true, "the controlling condition reads options.UnsupportedJSFeatures")
+		} else {
+			r.Fail(key, p.Pos(st.Pos()), "the implied features are only added when an *override* disables the implying feature: with a target that lacks it (es2016: no async functions) and `supported:{top-level-await:true}`, top-level await is lowered to a bare `yield` at module level without a diagnostic")
+		}
+	})
+	if !r.Anchor("the store that adds the implied features", n >= 1) {
+		return r
+	}
+	r.Floor(1)
+	return r
+}
